@@ -116,6 +116,27 @@ Definition class_name (s : str) : str :=
   let low := map lower_ascii c2 in
   if is_kw c2 || is_kw low || is_reserved low then c2 ++ [95] else c2.
 
+(* ---------- IRSchema.__post_init__ (ir.py): the name stored in an IRSchema ----------
+   Before the F20k fix: always sanitize_class_name(name).  With it (post_init_keeps_output, read from the source by
+   the translator): a name that fully matches _?(?:[A-Z][a-z]*|[0-9]+)+_? (the shape of sanitiser output) and that
+   a second sanitisation would only re-case is kept. *)
+Fixpoint groups_ok (after_letter : bool) (s : str) : bool :=   (* (?:[A-Z][a-z]*|[0-9]+)* from a group boundary *)
+  match s with
+  | [] => true
+  | c :: r => if is_upper c then groups_ok true r
+              else if is_lower c then after_letter && groups_ok true r
+              else if is_digit c then groups_ok false r
+              else false
+  end.
+Definition output_shape (s : str) : bool :=
+  let s1 := match s with c :: r => if c =? 95 then r else s | [] => s end in
+  let s2 := match rev s1 with c :: r => if c =? 95 then rev r else s1 | [] => s1 end in
+  nonempty s2 && groups_ok false s2.
+Definition ir_name (name : str) : str :=
+  let sanitized := class_name name in
+  if post_init_keeps_output && output_shape name && str_eqb (map lower_ascii sanitized) (map lower_ascii name)
+  then name else sanitized.
+
 (* ---------- sanitize_method_name ---------- *)
 Definition is_brace (c : N) : bool := (c =? 123) || (c =? 125).
 Definition is_lower_or_digit (c : N) : bool := is_lower c || is_digit c.
@@ -309,6 +330,28 @@ Section Oracles.
     end.
   Definition enum_member_int (v : str) (neg : bool) (fb : N) : option str :=
     member_tail_int fb (enum_int_base v neg fb).
+  (* ---------- clean_auto_generated_operation_id (FastAPI ids: <handler>_<path>_<method>) ----------
+     s[:-k] (k >= 1) = firstn (length s - k) s;  str.endswith on the lower-cased text, slicing on the original. *)
+  Definition strip_char (ch : N) (s : str) : str :=
+    rev (dropwhile (fun c => c =? ch) (rev (dropwhile (fun c => c =? ch) s))).
+  Definition drop_last (k : nat) (s : str) : str := firstn (length s - k) s.
+  Definition norm_path (path : str) : str :=
+    map lower_ascii (norm_us (map (fun c => if is_ident_char c then c else 95)
+                                  (filter (fun c => negb (is_brace c)) (strip_char 47 path)))).
+  Definition clean_op_id (op_id method path : str) : str :=
+    let msuf := 95 :: py_lower method in
+    if negb (suffixb msuf (py_lower op_id)) then op_id
+    else
+      let without := drop_last (length msuf) op_id in
+      match norm_path path with
+      | [] => op_id
+      | np =>
+          let psuf := 95 :: np in
+          if suffixb psuf (py_lower without)
+          then match drop_last (length psuf) without with [] => op_id | prefix => prefix end
+          else op_id
+      end.
+
   (* guard F20h: no non-ASCII code point of the tag is a word character (for the tag sanitisers, which keep them) *)
   Definition no_foreign_word (s : str) : bool := forallb (fun c => is_ascii c || negb (word c)) s.
 End Oracles.
